@@ -133,11 +133,22 @@ def run(F, scopes, rule_id="R25", floor=1):
                 continue
             n_defs += 1
             span = d[2]["span"] if d[0] == "call" else b.blocks[d[1]]["stmts"][d[2]].get("span", b.file_line())
-            by.setdefault(s, []).append((nm, l, span))
+            by.setdefault(s, []).append((nm, l, span, d[1]))
+        dom = None
         for s, ls in by.items():
             names = sorted({x[0] for x in ls})
             if len(names) < 2:
                 continue
+            # both variables must be alive together: one definition dominates the other.  Bindings of the same element in different
+            # arms of a `match` (`[s1] => .., [s2, s1] => ..`) are alternatives, not a mirrored pair
+            if dom is None:
+                from cfg import dominators
+                dom = dominators(b)
+            together = [(x, y) for i, x in enumerate(ls) for y in ls[i + 1:] if x[0] != y[0]
+                        and (x[3] in dom.get(y[3], ()) or y[3] in dom.get(x[3], ()))]
+            if not together:
+                continue
+            names = sorted({n_ for pr in together for n_ in (pr[0][0], pr[1][0])})
             where = ls[-1][2]
             r.inst("dup|%s|%s" % (b.path, "~".join(names)), where, "violation")
             r.fail("dup|%s|%s" % (b.path, "~".join(names)), where,
